@@ -117,6 +117,26 @@ def main():
         elif r["obs"]["rc"] == 0 and e.count(b"bar(") != MULTI[fn].count(b"foo(") :
             ck.violation("after a run over several files %s is not its own rewrite (exit status 0)" % fn,
                          dict(r["sc"].describe(), file=fn, content=e.decode("utf-8", "replace")[:1500]))
+    # byte-identical files in one run whose rewrite does not parse: every copy is rejected, none is written or emptied
+    DUP_SRC = b"package p\n\ntype Point struct{ X int }\n\nfunc f(p Point) bool {\n\tif isZero(p) {\n\t\treturn true\n\t}\n\treturn false\n}\n"
+    DUP = {"v1/point.go": DUP_SRC, "v2/point.go": DUP_SRC, "v3/point.go": DUP_SRC, "w/other.go": b"package p\n\nfunc g(q Point) bool {\n\tok := isZero(q)\n\treturn ok\n}\n"}
+    dup_scs = [Scenario([("p.patch", b"@@\nvar x expression\n@@\n-isZero(x)\n+x == Point{}\n")], dict(DUP), {"skip_imports": si}, args=sorted(DUP), name="dup-write") for si in (False, True)]
+    dup_res = clicorr.run_scenarios(dup_scs)
+    dup_emitted = [(r, fn, r["obs"]["after"][fn][1]) for r in dup_res for fn in DUP if r["obs"]["after"].get(fn) is not None]
+    dset = sorted(set(e for _, _, e in dup_emitted))
+    derrs = dict(zip(dset, vlib.harness("parse", {"srcs": [b64(u) for u in dset]})["errs"]))
+    for r, fn, e in dup_emitted:
+        ck.count(("dup-write", fn, r["sc"].flags.get("skip_imports")))
+        ck.tally("outcome", "identical files in one run")
+        if e != DUP[fn] and derrs.get(e):
+            ck.violation("byte-identical files in one run: %s was overwritten with content that does not parse (%s); exit status %d"
+                         % (fn, derrs[e][:100] or "empty", r["obs"]["rc"]), dict(r["sc"].describe(), rc=r["obs"]["rc"], file=fn, content=e.decode("utf-8", "replace")[:600]))
+    for r in dup_res:
+        if r["obs"]["rc"] == 0:
+            ck.violation("a run in which three files have an unparseable rewrite exits 0", dict(r["sc"].describe(), stderr=r["obs"]["stderr"].decode("utf-8", "replace")[:600]))
+        elif sum(1 for fn in DUP if fn.startswith("v") and fn.encode() in r["obs"]["stderr"]) < 3:
+            ck.violation("three byte-identical files have an unparseable rewrite; stderr does not report each of them",
+                         dict(r["sc"].describe(), stderr=r["obs"]["stderr"].decode("utf-8", "replace")[:900]))
     results = clicorr.run_scenarios(scs, api=True)
     # collect every emitted content, parse them all at once
     emitted = []
